@@ -637,8 +637,15 @@ impl Stdfs {
                     )?;
                 }
 
-                // Copy over the file/link
-                fs::copy(src.path(), &dst_path)?;
+                // Copy over the file/link; a file that lands on itself (same path, or the same file
+                // reached through a link) is left alone: fs::copy would truncate it before reading it
+                let same = match (fs::metadata(src.path()), fs::metadata(&dst_path)) {
+                    (Ok(x), Ok(y)) => x.dev() == y.dev() && x.ino() == y.ino(),
+                    _ => false,
+                };
+                if !same {
+                    fs::copy(src.path(), &dst_path)?;
+                }
 
                 // Optionally set new mode
                 if let Some(mode) = file_mode {
